@@ -99,7 +99,7 @@ fn program<T: Elem>(rng: &mut Rng, pages: usize, max_ops: usize, tag_heavy: bool
     }
     let nops = rng.range(1, max_ops);
     for _ in 0..nops {
-        script.push(*rng.pick(if tag_heavy { &b"wwwwrrrcccwrcWXF"[..] } else { &b"wwwwrrccccfwrcWWXF"[..] }));
+        script.push(*rng.pick(if tag_heavy { &b"wwwwrrrcccwrcWXFY"[..] } else { &b"wwwwrrccccfwrcWWXFY"[..] }));
     }
     if rng.chance(1, 8) {
         script.push(*rng.pick(b"oC"));
@@ -296,6 +296,33 @@ fn program<T: Elem>(rng: &mut Rng, pages: usize, max_ops: usize, tag_heavy: bool
                     Err(_) => obs.push("refused".into()),
                 }
             }
+            b'Y' => {
+                // Two read windows outstanding (both were shown the same samples): each is consumed in turn.
+                // For the model: two consumes.
+                let (rb1, _) = r.read_buf().unwrap();
+                let (rb2, _) = r.read_buf().unwrap();
+                let len = rb1.len();
+                let m1 = rng.range(0, len.min(9));
+                let m2 = rng.range(0, (len - m1).min(9));
+                req += &format!(" ; c {m1}");
+                match quiet(move || rb1.consume(m1)) {
+                    Ok(()) => obs.push("ok".into()),
+                    Err(_) => {
+                        obs.push("refused".into());
+                        dead = true;
+                    }
+                }
+                if !dead {
+                    req += &format!(" ; c {m2}");
+                    match quiet(move || rb2.consume(m2)) {
+                        Ok(()) => obs.push("ok".into()),
+                        Err(_) => {
+                            obs.push("refused".into());
+                            dead = true;
+                        }
+                    }
+                }
+            }
             b'o' => {
                 let wb = w.write_buf().unwrap();
                 let extra = rng.below(3);
@@ -402,6 +429,60 @@ fn admission(out: &mut Vec<String>) {
     }
 }
 
+/// Streams created, used across their wrap point and dropped by several threads at once: every stream is its own
+/// memory (a stream being set up must never take over address space that another one was just given).
+fn concurrent_create(seed: u64) -> String {
+    let threads = 8;
+    let rounds = 120;
+    let mut hs = vec![];
+    for t in 0..threads {
+        hs.push(std::thread::spawn(move || -> Result<(), String> {
+            let mut rng = Rng::new(seed.wrapping_mul(977).wrapping_add(t as u64));
+            for round in 0..rounds {
+                rustradio::verif::set_stream_size(4096 * *rng.pick(&[1usize, 1, 2, 4]));
+                let (w, r) = new_stream::<u64>();
+                let cap = w.free();
+                let tag = ((t as u64) << 48) | ((round as u64) << 32);
+                // advance to near the end, then a window across the wrap point
+                let adv = cap - rng.range(1, 8);
+                {
+                    let wb = w.write_buf().map_err(|e| e.to_string())?;
+                    wb.produce(adv, &[]);
+                    let (rb, _) = r.read_buf().map_err(|e| e.to_string())?;
+                    rb.consume(adv);
+                }
+                let k = rng.range(9, 40);
+                {
+                    let mut wb = w.write_buf().map_err(|e| e.to_string())?;
+                    for i in 0..k {
+                        wb.slice()[i] = tag | i as u64;
+                    }
+                    wb.produce(k, &[]);
+                }
+                std::thread::yield_now();
+                let (rb, _) = r.read_buf().map_err(|e| e.to_string())?;
+                for (i, v) in rb.slice().iter().enumerate() {
+                    if *v != (tag | i as u64) {
+                        return Err(format!("thread {t} round {round}: sample {i} of its own stream reads {v:#x}"));
+                    }
+                }
+                rb.consume(k);
+            }
+            Ok(())
+        }));
+    }
+    let mut verdict = "pass".to_string();
+    for h in hs {
+        match h.join() {
+            Ok(Ok(())) => {}
+            Ok(Err(e)) => verdict = format!("FAIL {e}"),
+            Err(_) => verdict = "FAIL a thread panicked".to_string(),
+        }
+    }
+    rustradio::verif::set_stream_size(0);
+    format!("!ringmt seed={seed} threads={threads} rounds={rounds}\t{verdict}\t{}", if verdict == "pass" { "" } else { "concurrent-create" })
+}
+
 pub fn run(args: &[String]) -> Vec<String> {
     let seed = arg_usize(args, "--seed", 1) as u64;
     let cases = arg_usize(args, "--cases", 1000);
@@ -410,6 +491,7 @@ pub fn run(args: &[String]) -> Vec<String> {
     let mut rng = Rng::new(seed);
     let mut lines = Vec::new();
     admission(&mut lines);
+    lines.push(concurrent_create(seed));
     for i in 0..cases {
         let mut r = rng.fork();
         let pages = *r.pick(&[1usize, 1, 1, 2, 3, 4]);
